@@ -259,6 +259,33 @@ class Interp:
             return f.call_(args, kwargs, self)
         if is_unk(f):
             return self.hooks.on_unknown_call(f, args, kwargs, node, self)
+        keyf = kwargs.get('key') if kwargs else None
+        if isinstance(keyf, AbsObj) and (
+                getattr(f, '__name__', '') == 'sort' and
+                isinstance(getattr(f, '__self__', None), list) or
+                f is BUILTINS.get('sorted') or
+                f in (BUILTINS.get('min'), BUILTINS.get('max'))):
+            # sorting / extremum with an interpreted key function
+            seq = f.__self__ if getattr(f, '__name__', '') == 'sort' \
+                else _b_list(args[0])
+            if is_unk(seq):
+                return Unk('sorted')
+            keys = [self.call(keyf, [x], {}, node) for x in seq]
+            if any(is_unk(k) or isinstance(k, AbsObj) for k in keys):
+                raise Unmodelled('sort key is not a concrete value')
+            rev = bool(kwargs.get('reverse', False))
+            order = sorted(range(len(seq)), key=lambda i: keys[i],
+                           reverse=rev)
+            if getattr(f, '__name__', '') == 'sort':
+                seq[:] = [seq[i] for i in order]
+                return None
+            if f is BUILTINS.get('sorted'):
+                return [seq[i] for i in order]
+            if not seq:
+                raise Raised('ValueError', 'empty sequence', node)
+            i = (min if f is BUILTINS.get('min') else max)(
+                range(len(seq)), key=lambda i: keys[i])
+            return seq[i]
         if callable(f):
             try:
                 return f(*args, **kwargs)
